@@ -62,3 +62,6 @@ Definition spec_bcd (wr a : Z) : Z := bcd (Z.to_nat (wr / 4)) a.
 (* ---- helper conversions (py4hw/helper.py IntegerHelper) ---------------------------------------- *)
 Definition spec_signed_to_c2 (v w : Z) : Z := umod w v.
 Definition spec_c2_to_signed (v w : Z) : Z := sgn w (umod w v).
+
+(* value of an optional carry-in port (absent = 0) *)
+Definition ci_val (ci : option Z) : Z := match ci with Some c => c | None => 0 end.
